@@ -574,18 +574,129 @@ Proof.
   split; [vm_compute; reflexivity|]. eexists. vm_compute. reflexivity.
 Qed.
 
-(* ------------------------------------------------------------------ not proved (kept visible) *)
-(* canon_fuel_partial.  Full statement: for s with 0 <= p_depth s <= D - 1 and
-   2 * D + 1 <= fuel, fst (canonicalize c fx fuel src rl s) <> KFuel
-   (fill_canonical from depth d needs 2d + 3 (2 when d = 0), canonical_ptr 2d + 4,
-   canonical_list 2d + 3: fill -> ptr -> fill/list costs two units per pointer level, like
-   writePtr/copyStruct in Core/CopySafe.v, so the bound is 2D + 1 and NOT D + 1).
-   Missing: the three-way induction on fuel over fill_canonical / canonical_ptr /
-   canonical_list with the depth lemmas struct_ptr_depth / ptrlist_at_depth /
-   list_struct_depth (same shape as copy_fuel_stable; KFuel is a distinct outcome here so no
-   stability argument is needed).
+(* ------------------------------------------------------------------ fuel *)
+(* fill -> ptr -> fill/list costs two units per pointer level: fill_canonical from a struct
+   with depth budget d needs 2d + 3 (2 when d = 0), canonical_ptr 2d + 4 (1 for a null
+   pointer), canonical_list 2d + 3. *)
+Definition ffuel (s : Ptr) (f : nat) : Prop :=
+  0 <= p_depth s /\ (2 * p_depth s + 3 <= Z.of_nat f \/ (p_depth s = 0 /\ (2 <= f)%nat)).
+Definition pfuel (p : Ptr) (f : nat) : Prop :=
+  (1 <= f)%nat /\ (p_valid p = true -> 0 <= p_depth p /\ 2 * p_depth p + 4 <= Z.of_nat f).
+Definition lfuel (l : Ptr) (f : nat) : Prop :=
+  (1 <= f)%nat /\ (p_valid l = true -> 0 <= p_depth l /\ 2 * p_depth l + 3 <= Z.of_nat f).
 
-   canon_alloc_partial / copy_alloc_partial.  Full statement: the bytes appended to the
+Lemma kbind_nofuel {A B} (r : cout A) (k : A -> cout B) :
+  r <> KFuel -> (forall a, r = KOk a -> k a <> KFuel) -> kbind r k <> KFuel.
+Proof. destruct r; cbn; intros H1 H2; try discriminate; [apply H2; reflexivity|congruence]. Qed.
+Lemma of_res_nofuel {A} (r : res A) : of_res r <> KFuel.
+Proof. destruct r; discriminate. Qed.
+Lemma kfold_nofuel {A} (f : A -> Z -> cout A) : forall l a,
+  (forall x b, In x l -> f b x <> KFuel) -> kfold l a f <> KFuel.
+Proof.
+  induction l as [|x l IH]; intros a H; cbn [kfold]; [discriminate|].
+  apply kbind_nofuel; [apply H; left; reflexivity|]. intros b _. apply IH. intros y c Hy. apply H. right. assumption.
+Qed.
+
+Definition NF_fill c fx f := forall w dst s, ffuel s f -> fill_canonical c fx f w dst s <> KFuel.
+Definition NF_ptr c fx f := forall w sid p, pfuel p f -> canonical_ptr c fx f w sid p <> KFuel.
+Definition NF_list c fx f := forall w sid l, lfuel l f -> canonical_list c fx f w sid l <> KFuel.
+
+Lemma nf_fill_step c fx f : NF_ptr c fx f -> NF_fill c fx (S f).
+Proof.
+  intros IH w dst s [Hd Hf]. rewrite fill_canonical_S.
+  apply kbind_nofuel; [apply of_res_nofuel|]. intros dd _.
+  apply kbind_nofuel; [apply of_res_nofuel|]. intros sd _. cbv zeta.
+  apply kbind_nofuel; [apply of_res_nofuel|]. intros w1 _.
+  apply kfold_nofuel. intros i wa _.
+  destruct (struct_ptr c (w_src wa) (w_src_rl wa) s i) as [r rl'] eqn:E. cbv zeta.
+  apply kbind_nofuel; [apply of_res_nofuel|]. intros p Ep. destruct r as [p'| |]; try discriminate.
+  inversion Ep; subst p'.
+  apply kbind_nofuel.
+  - apply IH. split; [lia|]. intros Vp.
+    pose proof (struct_ptr_depth c (w_src wa) (w_src_rl wa) s i p Hd) as H. rewrite E in H.
+    specialize (H eq_refl Vp). lia.
+  - intros [w2 cp] _. apply of_res_nofuel.
+Qed.
+
+Lemma nf_ptr_step c fx f : NF_fill c fx f -> NF_list c fx f -> NF_ptr c fx (S f).
+Proof.
+  intros IHf IHl w sid p [H1 Hp]. rewrite canonical_ptr_S.
+  destruct (p_valid p) eqn:V; cbn [negb]; [|discriminate]. destruct (Hp eq_refl) as [Hd Hf].
+  destruct (p_kind p); [| |discriminate].
+  - apply kbind_nofuel; [apply of_res_nofuel|]. intros sz _.
+    apply kbind_nofuel; [apply of_res_nofuel|]. intros [w1 ss] _.
+    apply kbind_nofuel; [|intros; discriminate]. apply IHf. split; [lia|]. left. lia.
+  - apply IHl. split; [lia|]. intros _. split; [lia|]. lia.
+Qed.
+
+Lemma nf_list_step c fx f : fx_depth (cx_rd fx) = true ->
+  NF_ptr c fx f -> NF_fill c fx f -> NF_list c fx (S f).
+Proof.
+  intros Hfd IHp IHf w sid l [H1 Hl]. rewrite canonical_list_S.
+  destruct (p_valid l) eqn:V; cbn [negb]; [|discriminate]. destruct (Hl eq_refl) as [Hd Hf].
+  destruct (_ && _).
+  { cbv zeta. apply kbind_nofuel; [apply of_res_nofuel|]. intros [[m1 nsid] naddr] _.
+    apply kbind_nofuel; [apply of_res_nofuel|]. intros bs _.
+    apply kbind_nofuel; [apply of_res_nofuel|]. intros; discriminate. }
+  destruct (negb (p_comp l)).
+  - apply kbind_nofuel; [apply of_res_nofuel|]. intros [w1 cl] _.
+    apply kbind_nofuel; [|intros; discriminate].
+    apply kfold_nofuel. intros i wa _.
+    destruct (ptrlist_at c (fx_upgrade (cx_rd fx)) (w_src wa) (w_src_rl wa) l i) as [r rl'] eqn:E. cbv zeta.
+    apply kbind_nofuel; [apply of_res_nofuel|]. intros q Eq. destruct r as [q'| |]; try discriminate.
+    inversion Eq; subst q'.
+    apply kbind_nofuel.
+    + apply IHp. split; [lia|]. intros Vq.
+      pose proof (ptrlist_at_depth c (fx_upgrade (cx_rd fx)) (w_src wa) (w_src_rl wa) l i q Hd) as H. rewrite E in H.
+      specialize (H eq_refl Vq). lia.
+    + intros [w2 cp] _. apply of_res_nofuel.
+  - apply kbind_nofuel; [apply of_res_nofuel|]. intros esz _.
+    apply kbind_nofuel; [apply of_res_nofuel|]. intros [w1 cl] _.
+    apply kbind_nofuel; [|intros; discriminate].
+    apply kfold_nofuel. intros i wa _.
+    apply kbind_nofuel; [apply of_res_nofuel|]. intros de _.
+    apply kbind_nofuel; [apply of_res_nofuel|]. intros se Ese. rewrite Hfd in Ese.
+    destruct (list_struct true l i) as [se'| |] eqn:E; try discriminate. inversion Ese; subst se'.
+    apply IHf. destruct (p_valid se) eqn:Vse.
+    + destruct (list_struct_depth' l i se Hd E Vse) as (_ & N & Hq). split; [exact N|].
+      destruct Hq as [Hq|[Hq1 Hq2]]; [left; lia|right; split; [exact Hq2|lia]].
+    + assert (p_depth se = 0) as D0.
+      { unfold list_struct in E. destruct (_ || _ || _); [discriminate|].
+        destruct (p_bit l); [inversion E; reflexivity|].
+        destruct (element _ _ _); inversion E; subst se; [discriminate Vse|reflexivity]. }
+      split; [lia|]. right. split; [exact D0|lia].
+Qed.
+
+Theorem canon_nofuel_all c fx : fx_depth (cx_rd fx) = true ->
+  forall f, NF_fill c fx f /\ NF_ptr c fx f /\ NF_list c fx f.
+Proof.
+  intros Hfd. induction f as [|f (IHf & IHp & IHl)].
+  - split; [|split].
+    + intros w dst s [Hd [H|[_ H]]]; lia.
+    + intros w sid p [H _]. lia.
+    + intros w sid l [H _]. lia.
+  - split; [apply nf_fill_step; assumption|]. split; [apply nf_ptr_step; assumption|apply nf_list_step; assumption].
+Qed.
+
+(* canon_m_safe, part 2: for a source struct read under depth limit D (depth budget <= D - 1)
+   fuel 2D + 1 excludes the out-of-fuel outcome *)
+Theorem canonicalize_nofuel c fx fuel src rl s D :
+  fx_depth (cx_rd fx) = true -> 0 <= p_depth s <= D - 1 -> 2 * D + 1 <= Z.of_nat fuel ->
+  fst (canonicalize c fx fuel src rl s) <> KFuel.
+Proof.
+  intros Hfd Hd Hf. unfold canonicalize.
+  destruct (new_message ASingle [] 0) as [m0| |]; try discriminate.
+  destruct (negb (p_valid s)); [discriminate|].
+  match goal with |- fst (match ?r with _ => _ end) <> _ => assert (r <> KFuel) as H; [|destruct r; cbn; congruence] end.
+  apply kbind_nofuel; [apply of_res_nofuel|]. intros sz _.
+  apply kbind_nofuel; [apply of_res_nofuel|]. intros [w1 root] _.
+  apply kbind_nofuel; [apply of_res_nofuel|]. intros w2 _.
+  apply kbind_nofuel; [apply of_res_nofuel|]. intros w3 _.
+  destruct (canon_nofuel_all c fx Hfd fuel) as (NF & _ & _). apply NF. split; [lia|]. left. lia.
+Qed.
+
+(* ------------------------------------------------------------------ not proved (kept visible) *)
+(* canon_alloc_partial / copy_alloc_partial.  Full statement: the bytes appended to the
    destination (sum over segments of zlen (mem dst' i) - zlen (mem dst i)) are at most
    3 * (w_src_rl w - w_src_rl w') + 24 * (pointer slots of the top-level object) + its own
    padded size: every object copied below the top level was charged its read size by readPtr
